@@ -281,6 +281,8 @@ class World:
             async def handler(request):
                 ws = web.WebSocketResponse(timeout=cfg["close_timeout"], receive_timeout=cfg["recv_timeout"], autoclose=cfg["autoclose"],
                                            autoping=cfg["autoping"], heartbeat=cfg["heartbeat"], compress=bool(cfg.get("compress")))
+                for _ in range(cfg.get("prepare_delay", 0)):
+                    await asyncio.sleep(0)  # a middleware / an auth lookup before the upgrade is accepted: the peer talks meanwhile
                 await ws.prepare(request)
                 self.ws = ws
                 self.handler_task = asyncio.current_task()
@@ -293,13 +295,33 @@ class World:
                 return ws
 
             async def go():
-                self.server = web.Server(handler)
+                self.server = web.Server(handler, **({"read_bufsize": cfg["read_bufsize"]} if cfg.get("read_bufsize") else {}))
                 proto = self.server()
-                self.peer_t, self.our_t = memnet.connect_protocols(loop, [], self.peer, proto)
+                self.peer_t, self.our_t = memnet.connect_protocols(loop, [], self.peer, proto, **({"c2s": memnet.Plan([30000])} if cfg.get("early_big") else {}))
                 self.peer.send(b"GET /ws HTTP/1.1\r\nHost: h\r\nUpgrade: websocket\r\nConnection: Upgrade\r\n"
                                b"Sec-WebSocket-Key: dGhlIHNhbXBsZSBub25jZQ==\r\nSec-WebSocket-Version: 13\r\n"
                                + (b"Sec-WebSocket-Extensions: permessage-deflate\r\n" if cfg.get("compress") else b"") + b"\r\n")
+                early = cfg.get("early_big", 0)
+                for k in range(early):
+                    # a client that does not wait for the 101: large frames right behind its handshake (more than the read
+                    # buffer takes, more than the websocket queue takes)
+                    self.peer.send(enc_frame(OP_BIN, bytes([65 + k]) * 50_000, masked=True))
                 await ready
+                if early:
+                    from aiohttp import WSMsgType
+
+                    for k in range(early):
+                        m = await asyncio.wait_for(self.ws.receive(), 5)
+                        if m.type != WSMsgType.BINARY or bytes(m.data) != bytes([65 + k]) * 50_000:
+                            raise Violation("early-frame-lost", f"early frame #{k} of {early} came back as {m.type} ({len(m.data) if hasattr(m.data, '__len__') else m.data})")
+                    self.peer.send_frame(OP_TEXT, b"after")
+                    try:
+                        m = await asyncio.wait_for(self.ws.receive(), 5)
+                    except asyncio.TimeoutError:
+                        raise Violation("deaf-after-early-frames", f"after {early} early frames were consumed, a further frame from the peer is never received "
+                                        f"(transport reading paused: {self.our_t.reading_paused})")
+                    if m.type != WSMsgType.TEXT or m.data != "after":
+                        raise Violation("early-frame-lost", f"the frame after the early ones came back as {m!r}")
 
             loop.drive(go(), max_time=50)
         loop.run_until_idle()
@@ -682,6 +704,8 @@ CONFIGS = [
     base_cfg("server", write_stall=True),
     base_cfg("client", recv_timeout=3.0, legacy_receive_timeout=True),
     base_cfg("client", early_frames=3),
+    base_cfg("server", early_big=5, prepare_delay=40, read_bufsize=200_000),
+    base_cfg("server", early_big=3, prepare_delay=10),
     base_cfg("client", unasked_extension=True),
 ]
 
